@@ -57,15 +57,23 @@ def local(T, mv, nv, xi):
 def h_strain(m, n, quad):
     def fn():
         d, mu, nu, be, bs, mv, nv, xi = make_solver(m, n)
-        pos, x, y = field_point(quad, mv, nv, xi, True)
-        u = d.displacement(pos)                    # dual numbers: value and d/dx, d/dy (x along m, y along n)
-        if np.shape(u) != (3,): return [('displacement shape', False)]
         R = [mv, nv, xi]
-        ul = [sum(float(R[a][j]) * u[j] for j in range(3)) for a in range(3)]        # components along m, n, xi
-        G = [[ul[a].d[0], ul[a].d[1], 0.0] for a in range(3)]                      # du_a/dx_b (no z dependence)
-        pos0, _, _ = field_point(quad, mv, nv, xi, False)
+        pos0, x, y = field_point(quad, mv, nv, xi, False)
+        if sx.symbolic_mode():
+            pos, x, y = field_point(quad, mv, nv, xi, True)
+            u = d.displacement(pos)                    # dual numbers: value and d/dx, d/dy (x along m, y along n)
+            if np.shape(u) != (3,): return [('displacement shape', False)]
+            ul = [sum(float(R[a][j]) * u[j] for j in range(3)) for a in range(3)]        # components along m, n, xi
+            G = [[ul[a].d[0], ul[a].d[1], 0.0] for a in range(3)]                      # du_a/dx_b (no z dependence)
+        else:
+            # replay on the real float code: central finite differences of the displacement
+            h = 1e-6 * max(1.0, abs(x), abs(y)); p0 = np.asarray(pos0, float)
+            G = [[0.0] * 3 for _ in range(3)]
+            for b_, dirv in enumerate((mv, nv)):
+                up = d.displacement(p0 + h * dirv); dn = d.displacement(p0 - h * dirv)
+                for a in range(3): G[a][b_] = float(np.dot(R[a], (up - dn))) / (2 * h)
         e = local(d.strain(pos0), mv, nv, xi)
-        S = 1e4
+        S = 1e4 if sx.symbolic_mode() else 1.0
         ob = []
         for a in range(3):
             for b in range(a, 3):
@@ -85,13 +93,18 @@ def h_stress(m, n, quad):
         ob = []
         for a in range(3):
             for b in range(3):
-                ob.append((f'stress[{a}{b}] == 2 mu strain + lambda tr(strain) delta', eq(s[a][b], 2 * mu * e[a][b] + (lam * tr if a == b else 0), 1e4)))
+                ob.append((f'stress[{a}{b}] == 2 mu strain + lambda tr(strain) delta', eq(s[a][b], 2 * mu * e[a][b] + (lam * tr if a == b else 0), 1e4 if sx.symbolic_mode() else None)))
         # divergence free: differentiate the code's stress
-        posd, _, _ = field_point(quad, mv, nv, xi, True)
-        sd = local(d.stress(posd), mv, nv, xi)
+        if sx.symbolic_mode():
+            posd, _, _ = field_point(quad, mv, nv, xi, True)
+            sd = local(d.stress(posd), mv, nv, xi)
+            divs = [sd[a][0].d[0] + sd[a][1].d[1] for a in range(3)]
+        else:
+            h = 1e-6 * max(1.0, abs(x), abs(y)); p0 = np.asarray(pos0, float); R = [mv, nv, xi]
+            gs = [(np.array(local(d.stress(p0 + h * dv), mv, nv, xi), float) - np.array(local(d.stress(p0 - h * dv), mv, nv, xi), float)) / (2 * h) for dv in (mv, nv)]
+            divs = [gs[0][a][0] + gs[1][a][1] for a in range(3)]
         for a in range(3):
-            div = sd[a][0].d[0] + sd[a][1].d[1]
-            ob.append((f'div(stress)[{a}] == 0', eq(div, 0, 1e4)))
+            ob.append((f'div(stress)[{a}] == 0', eq(divs[a], 0, 1e4 if sx.symbolic_mode() else max(1.0, float(abs(np.array(s, float)).max()) / max(abs(x), abs(y)) * 100))))
         # 1/r fall-off: strain(k p) == strain(p)/k
         k = var('k', 0.1, 10)
         e2 = local(d.strain(pos0 * k), mv, nv, xi)
